@@ -28,7 +28,8 @@ SPC = "pycaption/scc/specialized_collections.py"
 
 def run(ctx, report):
     folder = ctx.memo("folder", lambda: Folder(ctx.index))
-    report.section("timecode", timecode, ctx, report, folder)
+    report.structural_section("timecode (symbolic form for all values)", "R-E2E 'start' / 'end' / 'offset' on generated streams "
+                              "(both kinds of time code, also mixed in one document)", timecode, ctx, report, folder)
     report.section("frame counting", frame_counting, ctx, report)
     report.section("thresholds", thresholds, ctx, report, folder)
     report.section("EOC/EDM def-use", eoc_edm, ctx, report)
